@@ -809,7 +809,7 @@ hdf_xdr_NCvdata(NC *handle, NC_var *vp, unsigned long where, nc_type type, uint3
          * Otherwise, we should fill with the fillvalue
          */
         if (vp->data_ref == 0) {
-            if (handle->hdf_mode == DFACC_RDONLY) {
+            if (handle->hdf_mode == DFACC_RDONLY && handle->xdrs->x_op != XDR_ENCODE) {
                 if (vp->data_tag == DATA_TAG || vp->data_tag == DFTAG_SDS) {
                     if ((attr = NC_findattr(&vp->attrs, _FillValue)) != NULL)
                         HDmemfill(values, (*attr)->data->values, vp->szof, count);
